@@ -377,17 +377,17 @@ def main(tier="quick", seed=0):
             if k in seen:
                 continue
             seen.add(k)
-            pools.setdefault(len(c["d"][0][1]), []).append((c["d"], c["e"]))
+            pools.setdefault(len(c["d"][0][1]), []).append((c["d"], c["e"], relation_tags(c["d"], c["e"])))
     cfgs = c12_configs()
     per_cfg = 160 if quick else 2500
     jobs = []
     for ci, cfg in enumerate(cfgs):
         n_annot = 2 if cfg["task"] == "multi" else 1
-        pool = [p for p in pools.get(n_annot, []) if _eligible(cfg, *p)]
         # stratify by relation so that every relation is exercised on every estimator
         by_rel = {}
-        for p in pool:
-            by_rel.setdefault(relation_tags(*p), []).append(p)
+        for d, e, rel in pools.get(n_annot, []):
+            if _eligible(cfg, d, e):
+                by_rel.setdefault(rel, []).append((d, e))
         share = max(1, per_cfg // max(1, len(by_rel)))
         for rel in sorted(by_rel):
             lst = by_rel[rel]
